@@ -141,6 +141,15 @@ func c12Eval(c *fw.Ctx, k c12Case) (sig, desc string, nontrivial bool) {
 	(&BFile{L: l, Rings: r2}).Write(filepath.Join(root, "it", "p+q&r", "a b.wsp"))
 	(&BFile{L: l, Rings: r1}).Write(filepath.Join(root, "g", "x+y&z=1.wsp"))
 	(&BFile{L: l, Rings: r2}).Write(filepath.Join(root, "g", "x y.wsp"))
+	// a file whose stored maxRetention field differs from its last archive's retention (Open does not cross-check it)
+	{
+		b := (&BFile{L: l, Rings: r1}).Bytes()
+		b[4], b[5], b[6], b[7] = 0, 0, 4, 176 // 1200
+		os.MkdirAll(filepath.Join(root, "odd"), 0755)
+		os.WriteFile(filepath.Join(root, "odd", "mr.wsp"), b, 0644)
+		os.MkdirAll(filepath.Join(root, "oddit", "x"), 0755)
+		os.WriteFile(filepath.Join(root, "oddit", "x", "a.wsp"), b, 0644)
+	}
 	// multi-level patterns over directory names where one is a strict prefix of a sibling ('-' sorts before '/' and '.')
 	(&BFile{L: l, Rings: r1}).Write(filepath.Join(root, "ml", "web", "a.wsp"))
 	(&BFile{L: l, Rings: r2}).Write(filepath.Join(root, "ml", "web-01", "a.wsp"))
@@ -156,6 +165,8 @@ func c12Eval(c *fw.Ctx, k c12Case) (sig, desc string, nontrivial bool) {
 		file, glob, item, srcpat = "nodir/a.wsp", "g/z*.wsp", "no/*", "*.wsp"
 	case "odd-name":
 		file, glob, item, srcpat = "sp ace%41#.wsp", "g/c*.wsp", "it/z*", "a*.wsp"
+	case "odd-header":
+		file, glob, item, srcpat = "odd/mr.wsp", "odd/*.wsp", "oddit/*", "*.wsp"
 	case "multi-level":
 		file, glob, item, srcpat = "ml/web/a.wsp", "ml/*/*.wsp", "mi*/w*", "*.wsp"
 	case "odd-pattern":
@@ -213,7 +224,7 @@ func c12Eval(c *fw.Ctx, k c12Case) (sig, desc string, nontrivial bool) {
 			cmd = &wcmd.CopyCommand{SrcBase: base, SrcRelPath: glob, DestBase: ddir, AggregationMethod: wt.Sum, ArchiveInfoList: archList(l.Archs), From: tsOf(k.From), Until: tsOf(k.Until), ArchiveID: k.Archive, TextOut: out, CopyNaN: k.Sort}
 		case "sum-diff":
 			// every item has a destination: a missing one plus another fault would be a two-fault race (see DESIGN 15.2)
-			for i, it := range []string{"it/x", "it/y", "it/z w", "it/p+q&r", "it/p q", "mi/web", "mi/web-01", "mi-b/web"} {
+			for i, it := range []string{"it/x", "it/y", "it/z w", "it/p+q&r", "it/p q", "mi/web", "mi/web-01", "mi-b/web", "oddit/x"} {
 				(&BFile{L: l, Rings: [][]wsp.Ring{r1, r2}[i%2]}).Write(filepath.Join(ddir, it, "sum.wsp"))
 			}
 			cmd = &wcmd.SumDiffCommand{SrcBase: base, ItemPattern: item, SrcPattern: srcpat, DestBase: ddir, DestRelPath: "sum.wsp", From: tsOf(k.From), Until: tsOf(k.Until), ArchiveID: k.Archive, TextOut: out}
@@ -225,7 +236,7 @@ func c12Eval(c *fw.Ctx, k c12Case) (sig, desc string, nontrivial bool) {
 		}
 		o.es += firstLine(pn)
 		if strings.HasPrefix(k.Cmd, "copy") {
-			for _, f := range []string{"a.wsp", "g/a.wsp", "g/b.wsp", "g/c d+e&f.wsp", "sp ace%41#.wsp", "big/a.wsp", "g/x+y&z=1.wsp", "g/x y.wsp", "ml/web/a.wsp", "ml/web-01/a.wsp", "ml/web/b.wsp"} {
+			for _, f := range []string{"a.wsp", "g/a.wsp", "g/b.wsp", "g/c d+e&f.wsp", "sp ace%41#.wsp", "big/a.wsp", "g/x+y&z=1.wsp", "g/x y.wsp", "ml/web/a.wsp", "ml/web-01/a.wsp", "ml/web/b.wsp", "odd/mr.wsp"} {
 				b, _ := os.ReadFile(filepath.Join(ddir, f))
 				o.dest = append(o.dest, b...)
 			}
@@ -256,10 +267,10 @@ func runC12(c *fw.Ctx) {
 	codes := allCodes(5, 3)
 	c.R.Bounds["big"] = "one 2.4 MB file (1s:150000s,60s:600000s, every 7th slot filled) read over its whole retention by view, view-raw, sum, diff, copy"
 	c.R.Bounds["worlds"] = "L4: every content of the main file over {absent, 0.1, -2} (243) x a rotating second file; tree with a plain file, a glob directory of two files and two items"
-	c.R.Bounds["options"] = "commands view, view-raw, sum, diff, diff with glob, copy, copy with glob, sum-diff x target existing/missing/non-matching x archive all/0/1/2(out of range) x 5 windows x 2 clocks"
+	c.R.Bounds["options"] = "commands view, view-raw, sum, diff, diff with glob, copy, copy with glob, sum-diff x target existing/missing/non-matching x archive all/0/1/2(out of range) x 7 windows (incl. zero-length ones) x 2 clocks"
 	idx := 0
 	for ci, now := range []int64{clocks[1], clocks[len(clocks)-1]} {
-		wins := [][2]int64{{0, 0}, {now - 3, now - 1}, {now - r0 - 2, 0}, {now - rmax - 4, now - rmax + 1}, {now + 2, now + 5}}
+		wins := [][2]int64{{0, 0}, {now - 3, now - 1}, {now - r0 - 2, 0}, {now - rmax - 4, now - rmax + 1}, {now + 2, now + 5}, {now - 2, now - 2}, {now, now}}
 		for si, code := range codes {
 			if !c.Mine() {
 				continue
@@ -284,7 +295,7 @@ func runC12(c *fw.Ctx) {
 				}
 			}
 			for _, cmd := range []string{"view", "view-raw", "sum", "diff", "diff-glob", "copy", "copy-glob", "sum-diff"} {
-				for _, target := range []string{"existing", "missing", "nomatch", "odd-name", "odd-pattern", "multi-level"} {
+				for _, target := range []string{"existing", "missing", "nomatch", "odd-name", "odd-pattern", "multi-level", "odd-header"} {
 					for ai, arch := range []int{-1, 0, 1, 2} {
 						for wi, w := range wins {
 							idx++
